@@ -280,7 +280,7 @@ def c07(tier, seed):
         o1, c1 = units_incrate.run_spec(units_incrate.lattice_spec() + units_incrate.subscriptions_spec())
         return o1, c1
     return _verus_prop("C07", tier, seed, [("edges", r"consider_edge", None), ("has_float", None, None), ("has_tp_array", None, None),
-                                           ("has_destructor", None, None), ("lattice_insert", None, None), ("analyze", None, None), ("lattice_constrain", r"::constrain::", None), ("constrain", r"::CannotDerive::(constrain|insert)::", None)], {
+                                           ("has_destructor", None, None), ("lattice_insert", None, None), ("analyze", None, None), ("lattice_constrain", r"::constrain::", None), ("constrain", r"::CannotDerive::(constrain|insert)::", None), ("trace_impls", None, None)], {
         "trusted_base": INCRATE_TRUST + ["read-sets of each analysis' constrain (contracts/edges.py, hand-derived from the constrain bodies and the Trace impls)",
                                         "declared lattice orders taken from the enums' doc comments"],
         "functions_under_contract": ["bindgen/ir/derive.rs: CanDerive::join, BitOr, BitOrAssign", "bindgen/ir/analysis/has_vtable.rs: HasVtableResult::join(+ops), HasVtableAnalysis::consider_edge",
@@ -289,23 +289,27 @@ def c07(tier, seed):
                                      "bindgen/ir/analysis/derive.rs: consider_edge_default, DeriveTrait::consider_edge_comp/_typeref/_tmpl_inst",
                                      "bindgen/ir/analysis/{has_float,has_type_param_in_array,has_destructor}.rs: insert and MonotoneFramework::constrain (units has_float, has_tp_array, has_destructor: inflationary, Changed <=> the fact set changed, fix-point equation of the rule; 'any base/field/argument has the fact' iterator chains = uninterpreted functions of the fact set)",
                                      "bindgen/ir/analysis/{has_vtable,sizedness}.rs: MonotoneFramework::constrain of HasVtableAnalysis and SizednessAnalysis (unit lattice_constrain: only the node moves, to the join of its old fact and the documented rule applied to the current facts of its neighbours; Changed <=> it moved; insert/forward used through their contracts; the unreachable!() arms proved unreachable under the stated IR invariants)",
+                                     "bindgen/ir/{ty,comp,template,function,item}.rs: the Trace impls of Type, CompInfo, CompFields, Field, TemplateInstantiation, FunctionSig and Item (unit trace_impls, generic in the tracer): the exact sequence of (target, EdgeKind) each reports - inner types as TypeReference, bases as BaseMember, template definition / arguments as TemplateDeclaration / TemplateArgument, parameters as FunctionParameter, ...; nothing for stdint-named types, no bases/fields for opaque compounds - i.e. the table the subscription check (unit edges) is stated against",
                                      "bindgen/ir/analysis/mod.rs: analyze::<A> -- the generic worklist driver, for EVERY analysis A satisfying the MonotoneFramework obligations (unit analyze: at return every node of the initial worklist is stable, i.e. re-applying its rule changes nothing; `while let` desugared by its definition (R19), the each_depending_on callback = append of the dependents (R16); termination not proved)",
                                      "bindgen/ir/analysis/{has_vtable,sizedness,derive}.rs: insert (+forward) of the lattice-valued analyses (unit lattice_insert: the key moves only up, to the join; Changed <=> it moved; Entry API desugared by rule R17)"],
         "assumptions": ["necessary conditions of the least-fixed-point property: (i) joins are least upper bounds of the declared orders, (ii) every edge kind a rule reads along is in the analysis' subscription predicate, (iii) every table update is inflationary and reports Changed exactly when the table changed, (iv) the three set-valued rules compute the fact of a node from the current facts of its neighbours (fix-point equation)",
                         "(v) the driver: assuming of an analysis that constrain(n) leaves n stable, that Same changes nothing and that Changed can de-stabilise only nodes each_depending_on(n) reports (env/analyze_env.rs), analyze returns a state in which every node of the initial worklist is stable",
                         "CannotDerive::constrain IS under contract (unit constrain: node_rule = per-type rule + large-alignment conservatism, member join uninterpreted); UsedTemplateParameters::constrain is NOT; CannotDerive does not satisfy the driver's assumption for NON-allowlisted sub-items (it has no dependency edges for them and relies on the seed order of its initial_worklist instead: seed S24 missed)"],
-        "unverified": ["constrain of template_params (UsedTemplateParameters); CannotDerive::constrain_join (which members are joined); the initial_worklist functions (iterator chains); generate_dependencies; Trace impls; completeness of the read-sets; termination; the declaration-order corollary"],
+        "unverified": ["constrain of template_params (UsedTemplateParameters); CannotDerive::constrain_join (which members are joined); the initial_worklist functions (iterator chains); generate_dependencies; the Trace impl of ObjCInterface; the getters the verified Trace impls read; completeness of the read-sets; termination; the declaration-order corollary"],
     }, extra_obs=extra)
 
 
 def c08(tier, seed):
     def extra():
         return units_incrate.run_spec(units_incrate.derive_tables_spec())
-    return _verus_prop("C08", tier, seed, [("derive_gate", None, None), ("derives", None, None), ("constrain", None, None), ("fn_abi", r"function_pointers_can_derive", None)], {
+    return _verus_prop("C08", tier, seed, [("derive_gate", None, None), ("derives", None, None), ("constrain", None, None), ("fn_abi", r"function_pointers_can_derive", None),
+                                           # the float exclusion for Eq/Ord and the derive analysis' own subscriptions are C08 mechanisms too
+                                           ("edges", r"::(has_float_consider_edge|consider_edge_default)::", None), ("has_float", None, None)], {
         "trusted_base": INCRATE_TRUST + ["env/derive_gate_env.rs: uninterpreted options and analysis lookups; generic impl<T> instantiated at T = ItemId",
                                         "rule-table oracle written from the property statement (kani_incrate/derive_tables.rs)"],
         "functions_under_contract": ["bindgen/ir/context.rs: the eight impl<T> CanDerive{Debug,Default,Copy,Hash,PartialOrd,PartialEq,Eq,Ord} for T bodies",
                                      "bindgen/ir/analysis/derive.rs: CannotDerive::constrain_type (the whole per-type rule: blocklisted, excluded by name, opaque, simple kinds, pointers/fn pointers, arrays, vectors, compounds, type references, template instantiations) and DeriveTrait::{not_by_name, can_derive_*} (Verus unit constrain; member join = uninterpreted s_join)",
+                                     "bindgen/ir/analysis/has_float.rs: HasFloat::{consider_edge, insert, constrain} (the 'floats for Eq/Ord' exclusion: the rule's fix-point equation and that every edge it reads along is subscribed; same obligations as under C07)",
                                      "bindgen/ir/analysis/derive.rs: CannotDerive::constrain (node rule = per-type rule, made Manually for Default when the type is aligned beyond the 32-element limit; non-type items join their members) and CannotDerive::insert",
                                      "bindgen/codegen/mod.rs: derives_of_item (packed-requires-Copy, annotation exclusions; DerivableTraits modelled as one bool per flag); the four needs_{debug,default,clone,partialeq}_impl decisions of CompInfo::codegen (statements, R18)",
                                      "bindgen/ir/analysis/derive.rs: DeriveTrait::can_derive_{simple,pointer,vector,union,compound_with_destructor,compound_with_vtable,compound_forward_decl,incomplete_array}; can_derive_fnptr (bounded)",
@@ -318,17 +322,18 @@ def c08(tier, seed):
 
 
 def c09(tier, seed):
-    return _verus_prop("C09", tier, seed, [("edges", r"::(all_edges|only_inner_type_edges|codegen_edges)::", None), ("roots", None, None), ("blocklist", None, None), ("traversal", None, None)], {
+    return _verus_prop("C09", tier, seed, [("edges", r"::(all_edges|only_inner_type_edges|codegen_edges)::", None), ("roots", None, None), ("blocklist", None, None), ("traversal", None, None), ("trace_impls", None, None)], {
         "trusted_base": ["env/traversal_env.rs: TraversalStorage = set, TraversalQueue = bag (covers the LIFO Vec and the FIFO VecDeque), as Verus traits with specifications; the predicate fn pointer applied through an uninterpreted function; Trace impls call visit_kind once per outgoing edge of the item (trace_item = fold of visit_kind's own proved effect)",
                          "extraction rules R1-R11; env/edges_env.rs: uninterpreted CodegenConfig reads and Item::is_enabled_for_codegen; is_type_edge table from the Trace impls"],
         "functions_under_contract": ["bindgen/ir/traversal.rs: codegen_edges, only_inner_type_edges, all_edges",
                                      "bindgen/ir/traversal.rs: ItemTraversal::new, <ItemTraversal as Tracer>::visit_kind, <ItemTraversal as Iterator>::next, Edge::new (unit traversal, generic in Storage and Queue): representation invariant (roots seen; queue within seen; every item already taken out has all followed successors seen; everything seen is reachable) established by new and preserved by next; LEMMA lemma_exhausted: with the queue empty, seen == the set reachable from the roots along followed edges; LEMMA lemma_drain (a consumer over the contracts only): draining a fresh traversal yields exactly that set - closure AND minimality",
+                                     "bindgen/ir/{ty,comp,template,function,item}.rs: the Trace impls of Type, CompInfo, CompFields, Field, TemplateInstantiation, FunctionSig, Item (unit trace_impls): every reference of these nodes is reported, once, with the documented edge kind",
                                      "bindgen/ir/context.rs: the root-selection predicate of compute_allowlisted_and_codegen_items (a closure, extracted by rule R18; the unnamed-enum variant loop is one uninterpreted accessor)",
                                      "bindgen/ir/item.rs: Item::is_blocklisted (an item matched by an allowlist and a blocklist is not emitted: the traversal skips blocklisted items)"],
         "assumptions": ["root selection: an item is a root exactly when nothing is allowlisted, or it replaces a type, or its file / the generic item list / the list of ITS kind matches its path (+ the documented auto-allowlisting of codeless types in no-recursive mode and of unnamed top-level enums by variant); regex matching and path joining uninterpreted",
                         "closure/minimality of the walk itself: for every graph (s_edges uninterpreted), every predicate, every root list and either queue discipline; termination of the walk is not proved (finite IR)",
                         "per-edge decision: every edge kind whose target is a type is followed iff types are generated; vars/methods/constructors/destructors likewise; no-recursive mode follows exactly InnerType"],
-        "unverified": ["the variant-path loop of the unnamed-enum clause (seed S17 missed), every Trace impl (that each reports all of an item's references, once per edge), regex anchoring ^(..)$ in regex_set.rs, textual identity with the un-allowlisted run; the call sites that build the traversals (roots, predicate choice) beyond the root-selection closure"],
+        "unverified": ["the variant-path loop of the unnamed-enum clause (seed S17 missed), the Trace impl of ObjCInterface and the getters the verified Trace impls read (that they return all members), regex anchoring ^(..)$ in regex_set.rs, textual identity with the un-allowlisted run; the call sites that build the traversals (roots, predicate choice) beyond the root-selection closure"],
     })
 
 
